@@ -85,6 +85,39 @@ func rulesC18(c *Ctx) {
 				rearm = f.heldLocal(call)["Server.mu"] && hasAtom(guards, func(a Atom) bool { return AtomSaysNil(a, false, func(ast.Expr) bool { return true }) })
 			}
 		}
+		// arming and re-arming differ only in the nil test of the slot: a re-arm that depends on anything else (the
+		// timer not having fired yet, say) leaves the last change of a burst without a timer in front of it
+		guardSet := func(call *ast.CallExpr) map[string]bool {
+			out := map[string]bool{}
+			for _, a := range g.GuardsAt(g.VertexOf(call)) {
+				if _, _, isNil := NilTest(a.E); isNil {
+					continue
+				}
+				if inner, neg := stripNot(a.E); neg {
+					if _, _, isNil := NilTest(inner); isNil {
+						continue
+					}
+				}
+				out[exprStr(a.E)+"="+map[bool]string{true: "T", false: "F"}[a.Val]] = true
+			}
+			return out
+		}
+		var armSet, rearmSet map[string]bool
+		for _, call := range f.CallsIn(f.Body, af, false) {
+			armSet = guardSet(call)
+		}
+		for _, call := range f.AllCalls(f.Body, false) {
+			if fn := f.Callee(call); fn != nil && fn.Name() == "Reset" && fn.Pkg() != nil && fn.Pkg().Path() == "time" {
+				rearmSet = guardSet(call)
+			}
+		}
+		same := armSet != nil && rearmSet != nil && len(armSet) == len(rearmSet)
+		for k := range armSet {
+			if !rearmSet[k] {
+				same = false
+			}
+		}
+		c.Check(same, "changeAndNotify:rearm-unconditional", f, nil, "the pending timer is Reset under exactly the conditions under which an idle slot is armed (apart from the nil test): arm %v, re-arm %v", keysOf(armSet), keysOf(rearmSet))
 		c.Check(arm, "changeAndNotify:arm-when-idle", f, nil, "with no timer pending, time.AfterFunc(notificationDelay, notifySessions(name)) is stored in the slot for that name, under s.mu")
 		c.Check(rearm, "changeAndNotify:rearm-when-pending", f, nil, "with a timer pending it is Reset under s.mu (the last change of a burst always has a timer in front of it)")
 		// arming is conditional exactly on change() && capability
@@ -131,6 +164,11 @@ func rulesC18(c *Ctx) {
 						span = false
 					}
 				}
+			}
+		}
+		for _, r := range reads {
+			if !ng.Dominates(ng.VertexOf(clr), ng.VertexOf(r)) {
+				span = false
 			}
 		}
 		c.Check(span, "notifySessions:clear-and-snapshot-atomic", nf, clr, "the slot is cleared and the recipients are snapshotted in one critical section: a change that lands after the timer fired either is seen by this snapshot's send or finds the slot empty and arms a new timer")
